@@ -17,7 +17,19 @@ use serde_json::{json, Value};
 #[derive(Clone, Debug, Serialize, Deserialize)]
 pub enum Case15 {
     /// layer-by-layer forward, Model::forward composition and Model::backward's return value
-    Stack { specs: Vec<LayerSpec>, batch: usize, rows: usize, cols: usize, pseed: u64, xseed: u64, int_data: bool, cost: CostKind },
+    Stack {
+        specs: Vec<LayerSpec>,
+        batch: usize,
+        rows: usize,
+        cols: usize,
+        pseed: u64,
+        xseed: u64,
+        int_data: bool,
+        cost: CostKind,
+        /// every generated parameter is multiplied by this (large logits); 0 means 1
+        #[serde(default)]
+        pscale: f64,
+    },
     /// the cost closures on arbitrary equal-shaped arrays
     Cost { kind: CostKind, dims: Vec<usize>, seed: u64 },
 }
@@ -25,6 +37,7 @@ pub enum Case15 {
 fn cmp_t(what: &str, got: &corgi::array::Array, want: &T, exact: bool) -> Result<(), (String, String)> {
     match diff_array(got, &want.dims, &want.values(), &want.mags(), exact) {
         None => Ok(()),
+        Some(d) if d == UNDECIDABLE => Err(("discard".into(), d)),
         Some(d) => Err((if got.dimensions() != &want.dims[..] { format!("wrong-dimensions:{}", what) } else { format!("value-mismatch:{}", what) }, format!("{}: {}", what, d))),
     }
 }
@@ -42,11 +55,13 @@ impl Case15 {
                 cmp_t(&format!("{:?}-cost", kind), &got, &want, false).map_err(|(k, d)| (k, format!("{} (output/target dims {:?})", d, dims)))?;
                 Ok(n > 1)
             }
-            Case15::Stack { specs, batch, rows, cols, pseed, xseed, int_data, cost } => {
+            Case15::Stack { specs, batch, rows, cols, pseed, xseed, int_data, cost, pscale } => {
                 let e = |k: &str, d: String| Err((k.to_string(), d));
                 let acts = acts_for(specs);
-                let kind = if *int_data { VKind::Int } else { VKind::Small };
-                let mut layers = match guarded(|| build_layers(specs, &acts, *pseed, kind, None)) {
+                let scale = if *pscale == 0.0 { 1.0 } else { *pscale };
+                // large-logit stacks use positive parameters and inputs, so that a whole row has the same sign
+                let kind = if scale != 1.0 { VKind::PosInt } else if *int_data { VKind::Int } else { VKind::Small };
+                let mut layers = match guarded(|| build_layers_scaled(specs, &acts, *pseed, kind, scale, None)) {
                     Ok(l) => l,
                     Err(p) => return e("unexpected-panic:construct", format!("constructing {:?} panicked: {}", specs, p)),
                 };
@@ -64,8 +79,17 @@ impl Case15 {
                     }
                 }
                 let xd = input_dims(specs, *batch, *rows, *cols);
-                let xv = gen_vals(*xseed, numel(&xd), kind);
-                let exact = *int_data && specs.iter().all(|s| matches!(s, LayerSpec::Dense { act: Act::None | Act::Relu, .. } | LayerSpec::Conv { act: Act::None | Act::Relu, .. } | LayerSpec::Flatten));
+                let mut xv = gen_vals(*xseed, numel(&xd), kind);
+                if scale != 1.0 && *batch >= 2 {
+                    // rows of the batch are sign-flipped copies of the first one: logits far apart within one batch
+                    let row = numel(&xd) / *batch;
+                    for r in 1..*batch {
+                        for j in 0..row {
+                            xv[r * row + j] = if r % 2 == 1 { -xv[j] } else { xv[j] };
+                        }
+                    }
+                }
+                let exact = *int_data && scale == 1.0 && specs.iter().all(|s| matches!(s, LayerSpec::Dense { act: Act::None | Act::Relu, .. } | LayerSpec::Conv { act: Act::None | Act::Relu, .. } | LayerSpec::Flatten));
                 // layer by layer
                 let mut cur_ref = T::from_f64(&xd, &xv);
                 let mut cur = arr(&xd, &xv);
@@ -189,7 +213,7 @@ pub fn run(ctx: &Ctx) -> i32 {
         let output = 1 + ((i / 4) % 4) as usize;
         let act = acts[((i / 16) % 4) as usize];
         let batch = ((i / 64) % 4) as usize;
-        Some(Case15::Stack { specs: vec![LayerSpec::Dense { input, output, act }], batch, rows: 1, cols: 1, pseed: i, xseed: i + 1, int_data: (i / 256) % 2 == 0, cost: CostKind::Mse })
+        Some(Case15::Stack { specs: vec![LayerSpec::Dense { input, output, act }], batch, rows: 1, cols: 1, pseed: i, xseed: i + 1, int_data: (i / 256) % 2 == 0, cost: CostKind::Mse, pscale: 1.0 })
     }));
     let (total, max_batch) = t.pick((24000u64, 3usize), (500000, 5));
     let strat = move || (any::<[u8; 8]>(), 0..=max_batch, any::<u64>(), any::<u64>(), any::<bool>(), any::<bool>(), 1..=8usize).boxed();
@@ -197,7 +221,18 @@ pub fn run(ctx: &Ctx) -> i32 {
         let cost = if *ce { CostKind::CrossEntropy } else { CostKind::Mse };
         let (specs, rows, cols) = make_stack(b, if *ce { Some(if b[7] & 1 == 0 { Act::Softmax } else { Act::Sigmoid }) } else { None });
         let _ = cdims;
-        Some(Case15::Stack { specs, batch: *batch, rows, cols, pseed: *pseed, xseed: *xseed, int_data: *int_data && !*ce, cost })
+        Some(Case15::Stack { specs, batch: *batch, rows, cols, pseed: *pseed, xseed: *xseed, int_data: *int_data && !*ce, cost, pscale: 1.0 })
+    }));
+    // large logits: softmax / sigmoid layers whose pre-activations are far from zero and differ in sign across the batch
+    let scales: Vec<f64> = if crate::exec::IS_F32 { vec![2.0, 4.0, 6.0] } else { vec![15.0, 25.0, 40.0, 60.0, 90.0] };
+    let nsc = scales.len() as u64;
+    st.merge(ctx.run_indexed("large-logits", nsc * 3 * 3 * 2 * 3, None, |i| {
+        let pscale = scales[(i % nsc) as usize];
+        let input = 1 + ((i / nsc) % 3) as usize;
+        let output = 2 + ((i / nsc / 3) % 3) as usize;
+        let act = if (i / nsc / 9) % 2 == 0 { Act::Softmax } else { Act::Sigmoid };
+        let batch = 2 + ((i / nsc / 18) % 3) as usize;
+        Some(Case15::Stack { specs: vec![LayerSpec::Dense { input, output, act }], batch, rows: 1, cols: 1, pseed: i + 11, xseed: i + 12, int_data: true, cost: CostKind::Mse, pscale })
     }));
     let strat2 = move || (prop::collection::vec(1..=6usize, 1..=4), any::<bool>(), any::<u64>()).boxed();
     st.merge(ctx.run_prop("random-costs", total / 4, strat2, |(dims, ce, seed)| Some(Case15::Cost { kind: if *ce { CostKind::CrossEntropy } else { CostKind::Mse }, dims: dims.clone(), seed: *seed })));
